@@ -20,3 +20,44 @@ Proof.
   destruct (files_dimacs_idempotent text n F (RB false) P1 P2) as (_ & Hout & _).
   rewrite files_dimacs_stdin_outcome, Hin. rewrite Ht at 1. rewrite Hout. now rewrite Ht.
 Qed.
+
+(* the formula `cnfgen -q dimacs` holds after reading what `cnfgen argv` wrote is the family model of argv *)
+Lemma plf_formula_dimacs_stdin env n F :
+  pl_is_ascii (plf_stdin env) = true -> parse_dimacs false (plf_stdin env) = DOk n F ->
+  plf_formula ["-q"; "dimacs"]%string env = FrOk n F.
+Proof.
+  intros HA HP. unfold plf_formula, plf_formula_with.
+  assert (N : noT ["-q"; "dimacs"]%string) by (intros [H|[H|[]]]; discriminate).
+  rewrite (PipelinePbFacts.pl_chunks_of_noT _ N). cbn [plf_parse_chunks pl_parse_tchunks].
+  change (plf_parse_chunk0 env (map lit ["-q"; "dimacs"]%string)) with (PlOk (mk_pl_opts true false, Some (GenDimacs (plf_stdin env)))).
+  unfold plf_run_with. cbn [plf_g plf_ts plf_o pl_all_some plf_start_with]. unfold pl_chain. cbn [fold_left].
+  rewrite HA. cbn [negb]. now rewrite HP.
+Qed.
+
+Lemma chain_dimacs_formula argv text n F env :
+  cnfgen_main argv = POut text -> pl_opb_of argv = false -> pl_formula argv = FrOk n F ->
+  printable n -> printable (len F) -> plf_stdin env = text ->
+  plf_formula ["-q"; "dimacs"]%string env = FrOk n F.
+Proof.
+  intros Hm Hopb Hf P1 P2 Hin.
+  destruct (cnfgen_main_roundtrip argv text Hm) as (n' & F' & Hf' & Ht & _ & _ & RB).
+  rewrite Hf in Hf'. injection Hf' as <- <-.
+  specialize (RB P1 P2). unfold pl_reads_back in RB. rewrite Hopb in RB.
+  apply plf_formula_dimacs_stdin; rewrite Hin; [|apply RB].
+  unfold pl_write in Ht. rewrite Hopb in Ht. rewrite Ht. apply plf_print_dimacs_ascii.
+Qed.
+
+(* transformations applied later, through `dimacs`, are the transformations applied at once: for every chain *)
+Lemma chain_dimacs_later argv text n F env ts tcs :
+  cnfgen_main argv = POut text -> pl_opb_of argv = false -> pl_formula argv = FrOk n F ->
+  printable n -> printable (len F) -> plf_stdin env = text ->
+  Forall noT ts -> Forall2 (fun t tc => pl_parse_tchunk (map lit t) = PlOk (Some tc)) ts tcs ->
+  plf_formula (["-q"; "dimacs"]%string ++ flat_map (fun t => "-T"%string :: t) ts) env =
+  pl_formula (argv ++ flat_map (fun t => "-T"%string :: t) ts).
+Proof.
+  intros Hm Hopb Hf P1 P2 Hin HT H2.
+  pose proof (chain_dimacs_formula argv text n F env Hm Hopb Hf P1 P2 Hin) as HD.
+  rewrite (plf_formula_chain env ts tcs _ (plf_formula_ok_wellformed _ env n F HD) HT H2).
+  rewrite (pl_formula_chain ts tcs argv (pl_formula_ok_wellformed argv n F Hf) HT H2).
+  now rewrite HD, Hf.
+Qed.
